@@ -39,9 +39,20 @@ def main(argv=None) -> int:
             payload = json.loads(open(args.replay).read())
             rep = mod.replay(ctx, payload["driver"], payload["case"])
         else:
-            rep = mod.run(ctx)
-            from . import specmut
-            specmut.run_for(ctx, rep, pid)       # vacuity guards: wrong variants of the specification must be rejected by TLC
+            try:
+                rep = mod.run(ctx)
+                from . import specmut
+                specmut.run_for(ctx, rep, pid)   # vacuity guards: wrong variants of the specification must be rejected by TLC
+            except Exception as ex:
+                # a vacuity guard / binding self-test could not run.  If real violations were already found (e.g. no accepted
+                # trace is left to corrupt because the tree is broken) they are the verdict; otherwise it is a machinery failure.
+                if not core.ALL_VIOLATIONS:
+                    raise
+                rep = core.Report()
+                rep.violations = list(core.ALL_VIOLATIONS)
+                rep.notes.append(f"run incomplete: {str(ex)[:300]}")
+                rep.samples.append({"note": "run aborted by a guard after violations had been found"})
+                rep.states = rep.transitions = 1
         known = core.known_keys(pid)
         unlisted, seen_known = [], {}
         seen = set()
